@@ -477,7 +477,7 @@ def check(rep: Report, tier: str, seed: int) -> None:
         rep.broke(f"{asfound_hits} case(s) have the outcome Variant.asFound predicts (the tree before the emu-sv basis "
                   "guard / create_impl solver-first fixes; other variants listed here may predict the same outcome), "
                   "for which Props/C04 proves counterexamples")
-    if rep.broken and not rep.failing:
+    if rep.broken and not rep.unknown_failing():
         search(rep, seed, 3000 if quick else 40000)
 
 
@@ -493,9 +493,9 @@ def search(rep: Report, seed: int, n: int) -> None:
         if rep.failing:
             return
     check_dense(rep, rng, n // 20)
-    if not rep.failing:
+    if not rep.unknown_failing():
         check_pipeline(rep, rng, n // 10, lines, sink, exhaustive_dims=(2, 3, 4))
-    if not rep.failing:
+    if not rep.unknown_failing():
         check_sequences(rep, lines, sink)
     rep.extra["search_cases"] = n
 
